@@ -12,6 +12,7 @@ import (
 var Rigs = map[string]sim.Rig{
 	"C07": {Name: "reload", Run: runReload},
 	"C16": {Name: "lifecycle", Run: runLifecycle},
+	"C08": {Name: "loadfail", Run: runLoadfail, NoBubble: true},
 }
 
 func TestWorker(t *testing.T) { sim.WorkerMain(t, Rigs) }
